@@ -10,6 +10,12 @@ CLAIMED = {
     design_ref="DESIGN.md section 5 C16",
     note="Trusted: TLC, the recording driver (harness/cmd/vdrive/lock.go), hook H3 ordering under lockManager.mutex. Exhaustive only within the model bounds; concurrency sampled.",
     technique="TLA+ spec + TLC exhaustive check; state-graph-guided replay on the real lock manager; TLC trace validation"),
+ "C15": dict(
+    category="model_checking",
+    text="TLC checks the SlottedPage specification (table_page.go transcribed with the real layout constants 4096/24/8) exhaustively for 3 slots (thorough: 4) over the size alphabet {1,16,1000,2028,4064} (4064 fills a fresh page) for NoOverlap, HeaderSafe, FreeExact and Isolation; every edge of the state graph (about 133k) is then performed on a real TablePage and outcome, slot array, free-space pointer, header fields and the decoded content of every row are validated by TLC; random sequences of 300 operations with arbitrary sizes 1..4064 are validated against the same spec.",
+    design_ref="DESIGN.md section 5 C15",
+    note="Trusted: TLC, the recording driver (harness/cmd/vdrive/page.go) and its payload encode/decode. Exhaustive within the alphabet and slot bound; arbitrary sizes sampled.",
+    technique="TLA+ spec + TLC exhaustive check; state-graph-guided replay on a real TablePage; TLC trace validation of random operation sequences"),
 }
 
 NOT_APPLICABLE = {
